@@ -562,6 +562,11 @@ class _ChainedRunnerIterator(Iterable[_ValueT]):
         with_result=self._with_result,
         with_agg_state=self._with_agg,
         with_agg_result=self._with_agg_result,
+        # Only the truthiness of `state` is used: without it the restored
+        # iterator would not return its AggregateResult when exhausted.
+        state=self._with_agg,
+        total=self._total,
+        single_batch=self._single_batch,
     )
 
 
